@@ -6,12 +6,15 @@ text parsing of sqlite_dissect/file/schema/{master,column,table,utilities}.py fo
 rows; `Spec.Affinity` is SQLite's `sqlite3AffinityType`, `Spec.Ddl` a small grammar of column
 definitions with its renderer.
 
-What is proved: (1) the affinity rules, (2) the closing-parenthesis scanner on balanced text,
-(3) that for `Simple` column definitions written in the plainest syntax the definition scanner and
-`ColumnDefinition` recover SQLite's names and affinities.  What is *not* true of the code, and
-therefore only stated as `…FullStatement` with a counterexample: the affinity of every declared
-type (NOT_SPECIFIED), and the recovery of names/affinities for all of SQLite's CREATE TABLE syntax
-(a tab between name and type is enough) — see `columns_counterexample`.
+What is proved: (1) the affinity rules — now the full statement for every declared type SQLite's
+grammar produces, (2) the closing-parenthesis scanner on balanced text, (3) that for `Simple` column
+definitions, with any whitespace between name and type, the definition scanner and
+`ColumnDefinition` recover SQLite's names and affinities.  What is still *not* true of the code, and
+therefore only stated as `ColumnsFullStatement` with a counterexample: the recovery of names for all
+of SQLite's CREATE TABLE syntax (a doubled quote inside a quoted name is enough; further open
+findings: STRICT, "/*/" comments, "/" and "--" inside literals, whitespace runs inside quoted names).
+The model mirrors /repo after the repairs 65104eb … 07e13e3 (C07-01, -04, -05, -06, -08, -10, -11,
+-12, -14; C07-15 is in output.py).
 
 That the schema *rows* of every version are the rows of the page-1 b-tree (type, name, tbl_name,
 rootpage, sql) is the business of Model.Database / Model.Wal (db.dump / vh.dump correspondence,
@@ -24,19 +27,19 @@ open SqliteDissect SqliteDissect.Model.Schema SqliteDissect.Spec.Ddl
 
 /-! ### Affinity -/
 
-/-- The full statement: for every non-empty declared type the code's data-type detour plus
-substring rules give the affinity SQLite assigns. -/
-def AffinityFullStatement : Prop :=
-  ∀ s : Str, s ≠ [] → declaredAffinity s = .ok (Spec.typeAffinity s)
+/-- The full statement for declared types: every declared type SQLite's grammar can produce — a
+type name without "(", optionally followed by a parenthesised argument list (`typetoken`: one or
+two signed numbers, so none of the eight keywords occurs in it) — gets from the code's data-type
+detour plus substring rules the affinity SQLite assigns.  (Before commit 1f55f9a this needed the
+extra hypothesis "the name is not NOT_SPECIFIED".) -/
+theorem affinity_eq_spec (name args : Str) (h : Proofs.Schema.TypeToken name args) :
+    declaredAffinity (name ++ args) = .ok (Spec.typeAffinity (name ++ args)) := by
+  exact Proofs.Schema.affinity_eq_spec name args h
 
-/-- It is false of the code: the declared type `NOT_SPECIFIED` is mapped to the enum value that
-means "no type", hence BLOB; SQLite gives NUMERIC. -/
-theorem affinity_counterexample : ¬ AffinityFullStatement := by
-  intro h
-  have h1 := h dtNotSpecified (by decide)
-  have h2 := Proofs.Schema.affinity_counterexample
-  rw [h2.1, h2.2] at h1
-  cases h1
+/-- the former counterexample is gone: the type name NOT_SPECIFIED gets NUMERIC, as in SQLite -/
+theorem affinity_not_specified :
+    declaredAffinity dtNotSpecified = .ok .numeric ∧ Spec.typeAffinity dtNotSpecified = .numeric := by
+  exact ⟨Proofs.Schema.affinity_not_specified, by decide +kernel⟩
 
 /-- Whenever `_get_data_type` answers INVALID the substring rules run on the declared type itself
 and agree with SQLite — for every string. -/
@@ -44,27 +47,33 @@ theorem affinity_invalid_branch (d : Str) (h : getDataType d = dtInvalid) :
     columnAffinity (getDataType d) (some d) = .ok (Spec.typeAffinity d) := by
   exact Proofs.Schema.affinity_invalid_branch d h
 
-/-- Whenever `_get_data_type` finds an enum entry other than NOT_SPECIFIED, the affinity computed
-from the enum's name is SQLite's affinity of the declared type with its argument list cut off (the
-regex `\(.*\)$`) — for every string. -/
-theorem affinity_enum_branch (d : Str) (h1 : getDataType d ≠ dtInvalid)
-    (h2 : spaceToUnderscore (stripArgs (upper d)) ≠ dtNotSpecified) :
+/-- Whenever `_get_data_type` finds an enum entry, the affinity computed from the enum's name is
+SQLite's affinity of the declared type with its argument list cut off (the regex `\(.*\)$`) — for
+every string. -/
+theorem affinity_enum_branch (d : Str) (h1 : getDataType d ≠ dtInvalid) :
     columnAffinity (getDataType d) (some d) = .ok (Spec.typeAffinity (stripArgs (upper d))) := by
-  exact Proofs.Schema.affinity_enum_branch d h1 h2
+  exact Proofs.Schema.affinity_enum_branch d h1
 
-/-- The partial statement: for a declared type in SQLite's `typetoken` shape (a name without "(",
-optionally followed by a parenthesised argument list that contains none of the eight keywords — the
-grammar only allows signed numbers there), other than NOT_SPECIFIED, the code's affinity is
-SQLite's. -/
-theorem affinity_eq_spec_partial (name args : Str) (h : Proofs.Schema.TypeToken name args)
-    (hns : spaceToUnderscore (upper name) ≠ dtNotSpecified) :
-    declaredAffinity (name ++ args) = .ok (Spec.typeAffinity (name ++ args)) := by
-  exact Proofs.Schema.affinity_eq_spec_partial name args h hns
+/-- The statement over *all* strings (not only SQLite's type tokens) stays false: the argument
+list is cut off before the rules run, SQLite scans the whole text.  `DATE(INT)` is not a type
+SQLite's grammar accepts, so this does not touch the property; it records why `affinity_eq_spec`
+carries the `TypeToken` hypothesis. -/
+def AffinityAllStrings : Prop :=
+  ∀ s : Str, s ≠ [] → declaredAffinity s = .ok (Spec.typeAffinity s)
 
-/-- non-vacuity: `VARCHAR(255)` is such a type token (and gets TEXT) -/
+theorem affinity_all_strings_counterexample : ¬ AffinityAllStrings := by
+  intro h
+  have h1 := h Proofs.Schema.dateInt (by decide)
+  have h2 := Proofs.Schema.affinity_outside_grammar
+  rw [h2.1, h2.2] at h1
+  cases h1
+
+/-- non-vacuity: `VARCHAR(255)` and `NOT_SPECIFIED` are such type tokens -/
 example : Proofs.Schema.TypeToken ['V','A','R','C','H','A','R'] ['(','2','5','5',')'] ∧
     declaredAffinity ['V','A','R','C','H','A','R','(','2','5','5',')'] = .ok .text :=
   ⟨⟨by decide, Or.inr rfl, by decide⟩, rfl⟩
+
+example : Proofs.Schema.TypeToken dtNotSpecified [] := ⟨by decide, Or.inl rfl, by decide⟩
 
 example : getDataType ['F','L','O','A','T','I','N','G',' ','P','O','I','N','T'] = dtInvalid := by decide +kernel
 example : getDataType ['D','O','U','B','L','E',' ','P','R','E','C','I','S','I','O','N'] ≠ dtInvalid := by decide +kernel
@@ -89,10 +98,19 @@ example : closingParen ['(','a',' ','-','-',')','\n',')',' ','x'] = .ok 7 := by 
 /-! ### Column definitions -/
 
 /-- `ColumnDefinition.__init__` on a `Simple` definition in plain syntax (`name` or `name type`)
-recovers the column name and the affinity SQLite assigns. -/
+recovers the column name and the affinity SQLite assigns.  `Simple` no longer excludes one-character
+types (bf76d3b) nor the type name NOT_SPECIFIED (1f55f9a). -/
 theorem columns_partial (d : ColDef) (h : Simple d = true) :
     ∃ col, parseColumn (renderCol d) = .ok col ∧ col.name = d.name ∧ col.affinity = d.affinity := by
   exact Proofs.Schema.parseColumn_simple d h
+
+/-- The same with *any* non-empty run of whitespace characters (tab, newline, CR, FF, several
+spaces, …) between name and type: what was `ColumnsFullStatement` with the single-tab
+counterexample before commit 7c5a905 is now a theorem. -/
+theorem columns_any_whitespace (d : ColDef) (h : Simple d = true) (t : Str) (hty : d.type = some t)
+    (ws : Str) (hwne : ws ≠ []) (hws : ∀ w ∈ ws, isSpace w = true) :
+    ∃ col, parseColumn (d.name ++ ws ++ t) = .ok col ∧ col.name = d.name ∧ col.affinity = d.affinity := by
+  exact Proofs.Schema.parseColumn_simple_ws d h t hty ws hwne hws
 
 /-- The definition scanner of `OrdinaryTableRow.__init__` on a body of `Simple` definitions
 separated by ", " ends without error, finds no table constraint and yields, in order, the names and
@@ -106,35 +124,36 @@ theorem split_render (ds : List ColDef) (hne : ds ≠ []) (h : ∀ d ∈ ds, Sim
 def exA : ColDef := ⟨['i','d'], some ['I','N','T','E','G','E','R']⟩
 def exB : ColDef := ⟨['n','o','t','e','s'], some ['V','a','r','C','h','a','r']⟩
 def exC : ColDef := ⟨['p','r','i','m','a','r','y','E','m','a','i','l'], none⟩
+def exD : ColDef := ⟨['f','l','a','g'], some ['N']⟩
+def exE : ColDef := ⟨['k'], some dtNotSpecified⟩
 
-/-- non-vacuity: three `Simple` definitions, and the whole CREATE TABLE statement built from them
-goes through `OrdinaryTableRow.__init__` with SQLite's names and affinities -/
-example : Simple exA = true ∧ Simple exB = true ∧ Simple exC = true := by decide +kernel
-
-example :
-    (parseOrdinaryTable ['t'] ['t'] (renderTable ['t'] [exA, exB, exC])).toOption.map
-        (fun t => (t.cols.map (·.name), t.cols.map (·.affinity), t.ntc, t.withoutRowid, t.internal)) =
-      some ([exA.name, exB.name, exC.name], [.integer, .text, .blob], 0, false, false) := by
+/-- non-vacuity: `Simple` definitions (a one-character type and NOT_SPECIFIED among them), and the
+whole CREATE TABLE statement built from them goes through `OrdinaryTableRow.__init__` with SQLite's
+names and affinities -/
+example : Simple exA = true ∧ Simple exB = true ∧ Simple exC = true ∧ Simple exD = true ∧ Simple exE = true := by
   decide +kernel
 
-/-- The full statement for column lists — every column definition SQLite's grammar allows, here
-already for the plain syntax with an arbitrary single whitespace character between name and type —
-is false of the code. -/
-def ColumnsFullStatement : Prop :=
-  ∀ (d : ColDef) (sep : Char), isSpace sep = true → Simple d = true →
-    ∀ t, d.type = some t →
-      ∃ col, parseColumn (d.name ++ sep :: t) = .ok col ∧ col.name = d.name ∧ col.affinity = d.affinity
+example :
+    (parseOrdinaryTable ['t'] ['t'] (renderTable ['t'] [exA, exB, exC, exD, exE])).toOption.map
+        (fun t => (t.cols.map (·.name), t.cols.map (·.affinity), t.ntc, t.withoutRowid, t.internal)) =
+      some ([exA.name, exB.name, exC.name, exD.name, exE.name],
+            [.integer, .text, .blob, .numeric, .numeric], 0, false, false) := by
+  decide +kernel
 
-/-- witness: `id<TAB>INTEGER` is read as a column named "id\tINTEGER" of BLOB affinity -/
+/-- the former witness of `columns_counterexample`: `id<TAB>INTEGER` -/
+example : (parseColumn (exA.name ++ ['\t'] ++ ['I','N','T','E','G','E','R'])).toOption.map
+    (fun c => (c.name, c.affinity)) = some (['i','d'], .integer) := by
+  decide +kernel
+
+/-- The full statement for column lists — every column definition SQLite's grammar allows — is still
+false of the code (open findings C07-02, -03, -07, -09, -13).  Stated for the smallest remaining
+deviation: a quoted column name may contain a doubled quote character. -/
+def ColumnsFullStatement : Prop :=
+  ∀ (name : Str), name ≠ [] →
+    ∃ col, parseColumn ('"' :: Proofs.Schema.escapeDq name ++ ['"']) = .ok col ∧ col.name = name
+
+/-- witness: the column `"x""y"` (SQLite: name `x"y`) is read as `x` -/
 theorem columns_counterexample : ¬ ColumnsFullStatement := by
-  intro h
-  obtain ⟨col, h1, h2, _⟩ := h exA '\t' (by decide) (by decide +kernel) _ rfl
-  have h3 : parseColumn (exA.name ++ '\t' :: ['I','N','T','E','G','E','R']) =
-      .ok { name := ['i','d','\t','I','N','T','E','G','E','R'], derived := none, dataType := dtNotSpecified,
-            affinity := .blob, hasConstraints := false } := by rfl
-  rw [h3] at h1
-  cases h1
-  revert h2
-  decide
+  exact Proofs.Schema.columns_counterexample
 
 end SqliteDissect.Properties.C07
